@@ -12,1159 +12,939 @@ Definition show_fres (r : fres) : string :=
   end.
 Definition check (rs : list rune) : string := digest (show_fres (format_res rs)).
 Definition full (rs : list rune) : string := show_fres (format_res rs).
-Eval vm_compute in ("<<<M1942>>>" ++ check (runes_of_ascii "// packet A { u8 x, }
-packet string_ {
-    @tag(4294967296)
-    @calculatedFrom(""" ++ [128512]%N ++ runes_of_ascii """)
-    @calculatedFrom(""1"")
-    leftPad @lengthOf(int) ``,
-    repeat Packet {
-        zchar[0] options1 `line1
-                line2`,
-    },
-    @calculatedFrom("""")
-    float32 u8x,
-    float,
-    i64_ {
-        packetx {
-            i16 falsey,
-            f32 repeatCount `{ , }`,
-        },
-        repeat char[0] i8i8,
-        string o @lengthOf(options1),
-    },
-    i64_ @calculatedFrom(""a\""b"") `a\`,
-    @rightPad()
-    @lengthOf(packetx)
-    match matchKey as stringy {
-        ""a	b"" : body,
-    },
-    // " ++ [27880; 37322]%N ++ runes_of_ascii "
-    @lengthOf(u128)
-    @calculatedFrom(""`tick`"")
-    @rightPad()
-    // @lengthOf(
-    repeat falsey string_ `" ++ [28040; 24687; 31867; 22411]%N ++ runes_of_ascii "`,
-    string As `it's`,
-    @calculatedFrom(""" ++ [28040; 24687]%N ++ runes_of_ascii """)
-    repeat rootA {
-        float64 body,
-    },
-}
-
-options {
-    zchar = true;
-    i8i8 = 3;
-}
-
-packet leftPad {
-    @calculatedFrom("""")
-    //x
-    @leftPad(' ')
-    @calculatedFrom(""abc"")
-    repeat MetaDataX {
-        char[] Pad,
-        body @lengthOf(Foo),
-        uint64 i8i8,
-        char[42] options1 @calculatedFrom(""x y""),
-    },
-}
-
-packet stringy {
-    @calculatedFrom(""" ++ [28040; 24687]%N ++ runes_of_ascii """)
-    BodyLength len,
-    @lengthOf(u)
-    i8i8 metadata,
-    @calculatedFrom(""a\\"")
-    //x
-    packetx,
-    f64 i8i8 @lengthOf(Header),
-    metadata `
-        `,
-    @lengthOf(int)
-    repeat falsey,
-    repeat char[] trueish,
-}")).
-Eval vm_compute in ("<<<M225>>>" ++ check (runes_of_ascii "packet T
-    // " ++ [128512]%N ++ runes_of_ascii " emoji
-    { match repeatCount as
-Packet {
-    ""packet"" : msg_type , 00 :
-    Foo
-    ,""" ++ [128512]%N ++ runes_of_ascii """ : trueish, """": repeatCount
-    [ // packet A { u8 x, }
-4294967296 , 65535 ] :	u ,	}, @calculatedFrom( ""a\\"" )
-    float32 len @lengthOf(// " ++ [128512]%N ++ runes_of_ascii " emoji
-string_
-    ), stringy Pad, roots{ repeat x_y_z
-    `// not a comment`
-, T
-`" ++ [233]%N ++ runes_of_ascii "` , }, @tag(
-007 )  _x
-{// " ++ [128512]%N ++ runes_of_ascii " emoji
-char[] body
-@calculatedFrom( """ ++ [233]%N ++ runes_of_ascii "t" ++ [233]%N ++ runes_of_ascii """
-    //	t
-    ) ,repeat Pad// packet A { u8 x, }
-``
-// c
-/// triple
-, }
-    //x
-    , match	u as packetx{// `tick` ""quote"" 'q'
-[ ""// no comment"" ,
-007]	: T
-, [  ""\" ++ [233]%N ++ runes_of_ascii """// " ++ [27880; 37322]%N ++ runes_of_ascii "
-] :// trailing space 
-u8x } , @rightPad( ) int8 _x , @lengthOf(
-A	)match/// triple
-crc
-as metadata { [ 00,
-    //	t
-    ""a\""b"" ,3
-    , 1
-    ,
-10 ] : Packet , //	t
-[
-4294967296	, ""abc"" , """"] // @lengthOf(
+Eval vm_compute in ("<<<M279>>>" ++ check (runes_of_ascii "  root packet
+    crc {	uint32
+repeatCount //
+@lengthOf( // a // b
+MetaDataX	) `say ""hi""` ,
+    @tag( 65535 ) A {
+    u128 , u8x	{ repeatCount  @lengthOf( As )// c
+,// packet A { u8 x, }
+i32	_x@calculatedFrom(//	t
+""" ++ [128512]%N ++ runes_of_ascii """	), } , } // c
+,
+@lengthOf(As ) @tag(  0 ) @tag(4294967296 ) string metadata ,
+string lengthOf // `tick` ""quote"" 'q'
+@lengthOf(f32a) , @tag( 3 )string packetx,	@lengthOf( Pad) @lengthOf( packetx ) BodyLength @calculatedFrom( ""a	b"" )
+, repeat u8x
+{ zchar[ 3 ]
+    tag `doc` , match As as leftPad
+    { [
+    10 ,
+3 , 7 ,
+""abc"" , 42 // @lengthOf(
+]
 :
+A
+, } , match Header as falsey { 42
 // `tick` ""quote"" 'q'
+// trailing space 
+:
+    msg_type
+    , 00
+: A
+1 :
+charz ,""// no comment"" : int // @lengthOf(
+,	0123456789 :chars , 4294967296
+: x } ,
+}
+    /// triple
+    , @tag(
+10 ) @tag(//x
+007 )
+@calculatedFrom( ""`tick`""
+    )i8i8 @lengthOf(
+    //
+    charz ),
+    char[ 7] Header
+, } packet
+lengthOf // @lengthOf(
+{match metadata
+    // " ++ [128512]%N ++ runes_of_ascii " emoji
+    as asx{ 7 // packet A { u8 x, }
+: //
+float  ,
+    // " ++ [128512]%N ++ runes_of_ascii " emoji
+    """ ++ [233]%N ++ runes_of_ascii "t" ++ [233]%N ++ runes_of_ascii """:
+stringy
+, """ ++ [28040; 24687]%N ++ runes_of_ascii """ :
+BodyLength , 7 : leftPad , } , @lengthOf(MetaDataX
+)repeat zchar[ 7 ]float , @tag( 0
+    )matchKey @calculatedFrom(""packet""
+    ) // packet A { u8 x, }
+, }packet Pad{ options1 @lengthOf(rootA ),} root // c
+packet BodyLength{
+string uint8x
+//
 // " ++ [27880; 37322]%N ++ runes_of_ascii "
-a1 , """ ++ [28040; 24687]%N ++ runes_of_ascii """ // `tick` ""quote"" 'q'
-:
-    repeatCount  , } , }options { }MetaData Header
-{  trueish Pad ,
-    } MetaData Z9_ { char[]
-metadata ,
+@lengthOf( Z9_) , } // c")).
+Eval vm_compute in ("<<<M96>>>" ++ check (runes_of_ascii "packet  int//x
+{
 // " ++ [128512]%N ++ runes_of_ascii " emoji
-// packet A { u8 x, }
-Header A
-`doc`
-// a // b
-// a // b
-, //x
-uint32 // " ++ [27880; 37322]%N ++ runes_of_ascii "
-packetx ,
-int16 uint8x
-    //
-    , Header// @lengthOf(
-leftPad
-    , // packet A { u8 x, }
-}
-// trailing space 
-")).
-Eval vm_compute in ("<<<M1340>>>" ++ check (runes_of_ascii "
-
-  options
-{
-FixedStringPadFromLeft =
-
-true
-    ;	FixedStringPadChar
-=  '0'	;
-    } packet	Leg
-
-    { InPrice0
-    { repeat string
-
-    clOrdID  ,	int16 msgKind
-,
-zchar[
-	5
-    ]	Px,
-    } ,
-i16
-
-    f1
-,
-repeat
-f64 Side2
-,string  Acct ,	} packet
-
-Cancel	{
-	zchar[
-    4
-
-]clOrdID,
-	string
-    seqNo
-, Leg,
-@leftPad  (
-'0'
-	)
-    char[
-    11] 
-OrderId ,
-	} packet Quote{repeat
-char[
-    4  ]
-sym
-    ,
-
-f64 OrderId ,repeat
-	Leg
-,
-
-    repeat i64
-    f1
-	, int16
-Note,
-zchar[
-
-    3]
-count 
-,
-}  root
-
-packet Ack
-
-    {  @leftPad
-(' '
-	)char[
-
-10
-    ]  sym ,
-
-InPx60
-
-{
-
-Cancel
-,repeat	char[ 
-1  ]
-
-    f1 , 
-string
-    Tail
-    , 
-repeat  InNote55
-    {
-    int8
-    count	, 
-f64 
-f1
-,repeat
-    Cancel
-    ,},
-
-    char[]tag7
-	, 
-repeat string
-    msgKind
-
-    ,
-
-    }
-
-, u8 
-lastPx, match 
-lastPx as  Body
-{152 
-:  Quote  , 
-173
-:Cancel,	4:
-    Leg 
-,}
-
-    ,
-u16
-Ref@calculatedFrom(
-    ""CRC32""
-	)
-,	}
-
-")).
-Eval vm_compute in ("<<<M1377>>>" ++ check (runes_of_ascii "// top
-options // c0a
-  // c0b
-{ LittleEndian // c2
-= true ; // c5
-} // c6a
-  // c6b
-packet
-    // c7
-Logon // c8a
-  // c8b
-{ u8 x // c11
-, } // c13
-packet // c14
-Logout { u16 // c17a
-  // c17b
-reason
-    // c18
-, // c19a
-  // c19b
-} // c20
-root
-    // c21
-packet // c22a
-  // c22b
-Frame // c23a
-  // c23b
-{ // c24a
-  // c24b
-u8
-    // c25
-Kind // c26a
-  // c26b
-, // c27
-u8 // c28
-Kind2 ,
-    // c30
-match Kind as // c33
-Body
-    // c34
-{ // c35a
-  // c35b
-1 // c36
-:
-    // c37
-Logon // c38
-, // c39a
-  // c39b
-[ // c40a
-  // c40b
-2 // c41
-,
-    // c42
-3 // c43
-, 4 ]
-    // c46
-: // c47
-Logout
-    // c48
-, // c49a
-  // c49b
-100 // c50
-:
-    // c51
-Logon // c52a
-  // c52b
-,
-    // c53
-} , // c55
-match // c56a
-  // c56b
-Kind2 as
-    // c58
-Trailer // c59a
-  // c59b
-{ // c60
-0 // c61
-:
-    // c62
-Logout // c63a
-  // c63b
-, } , // c66a
-  // c66b
-} ")).
-Eval vm_compute in ("<<<M1759>>>" ++ check (runes_of_ascii "
-
-  options{ StringPrefixLenType
-=
-
-    u8
-
-;
-
-ArrayPrefixLenType 
-=	u32
-    ;
-FixedStringPadFromLeft =
-
-true
-    ;
-	FixedStringPadChar 
-=
-' '	;
-
-    } packet
-Leg
-{ } packet
-Heartbeat
-
-{
-    zchar[
-
-6
-]
-msgKind ,
-
-    @rightPad( '0'
-
-    )	char[ 3
-    ]
-Qty
-
-,	zchar[
-9	] Side2 
-,
-	i8 Acct
-
-    ,
-}  packet
-    Logout	{
-	int8 
-x
-
-, } 
-packet
-Order 
-{ char[]Acct 
-,
-zchar[
-8
-]	count 
-,	u32
-OrderId,
-
-uint8 lastPx
-
-    ,
-    u16
-
-clOrdID,  zchar[
-7
-
-    ]Note
-,
-	}
-root
-    packet Reject {@leftPad (' ' ) char[
-8 ]
-    Side2 ,
-
-    i8
-clOrdID  , 
-repeat 
-f32
-
-    x , u32 lastPx
-
-,
-match
-    lastPx
-
-as Body{ [ 30  ,
-	147 ] : Heartbeat ,134 : Leg
-	,	183 
-:
-	Logout
-	,
-    40 
-:
-	Order ,	}	,
-u16	Ref
-@calculatedFrom(
-    ""CRC32""	)
-
-    , } ")).
-Eval vm_compute in ("<<<M1797>>>" ++ check (runes_of_ascii "packet options1 {
-    @leftPad('0')
-    @rightPad('\x00')
-    @tag(255)
-    /// triple
-    repeat string As `
-    `,
-    @calculatedFrom("""")
-    @calculatedFrom(""x y"")
-    a1 {
-        Foo {
-            trueish {
-                tag @lengthOf(i8i8) `doc`,
-            },
-            zchar[00] f32a @lengthOf(calculatedFrom),
-            repeat zchar[1] stringy `{ , }`,
-        },
-        uint64 repeatCount @lengthOf(asx),
-        char[42] lengthOf @calculatedFrom(""packet""),
-        char[10] calculatedFrom @lengthOf(BodyLength),
-    },
-    asx `// not a comment`,
-}
-
-options {
-    matchKey = """ ++ [128512]%N ++ runes_of_ascii """
-    falsey = ""a\""b"";
-    A = ""CRC32""
-    msg_type = """ ++ [233]%N ++ runes_of_ascii "t" ++ [233]%N ++ runes_of_ascii """;
-}
-
-MetaData o {
-}
-
-packet Pad {
-}")).
-Eval vm_compute in ("<<<M1768>>>" ++ check (runes_of_ascii "MetaData//	t
-    body
-    { 
-T
-	calculatedFrom
-
-    , 
-string f32a	`line1
-line2`
-    ,  leftPad BodyLength
-`tab	here`
-,
-
-    }options {
-}  MetaData
-
-options1
-
-    {
-
-    char[
-3 
-]
-    MetaDataX 
-	// " ++ [128512]%N ++ runes_of_ascii " emoji
-	/// triple
-  	`" ++ [28040; 24687; 31867; 22411]%N ++ runes_of_ascii "`
-    ,
-    BodyLength
-x `
-`
-	,
-
-u16
-    tag `say ""hi""`
-
-    , u8 float ,  float32 As `
-`
-	,i8i8 
-Z9_
-`
-`	,  }packet u {@tag( 42 )	options1 // c
-    o
-	`crlf
-line`
-,
-    @calculatedFrom(
-
-""`tick`""
-
-// packet A { u8 x, }
-// a // b
-
-  )
-
-repeat
-char[]	a1 
-	    //x
-	,
-}
-
-options
-	{	uint8x
-	=	true
-A
-	= // `tick` ""quote"" 'q'
-
-7	;	// packet A { u8 x, }
-
-	len
-= """ ++ [128512]%N ++ runes_of_ascii """
-} ")).
-Eval vm_compute in ("<<<M1345>>>" ++ check (runes_of_ascii "options {
-    LittleEndian = false;
-    ArrayPrefixLenType = u8;
-    FixedStringPadFromLeft = true;
-    FixedStringPadChar = '0';
-}
-packet Heartbeat {
-    string lastPx,
-    uint8 Qty,
-    i64 Acct,
-    char[4] Ref,
-}
-packet Fill {
-    uint8 Ref,
-    Heartbeat,
-    f32 OrderId,
-    repeat f32 x,
-}
-root packet Order {
-    zchar[2] OrderId,
-    zchar[2] Acct,
-    zchar[1] Note,
-    zchar[9] Qty,
-    string price,
-    string tag7,
-    u32 x,
-    match x as Body {
-        123 : Fill,
-        112 : Heartbeat,
-    },
-    u32 seqNo @calculatedFrom(""CR\
-C32""),
-}
-")).
-Eval vm_compute in ("<<<M163>>>" ++ check (runes_of_ascii "options { As = // trailing space 
-zchar[ 4294967296] ; } //	t
-packet len // packet A { u8 x, }
-{ @lengthOf(
-_x) match
+//	t
+} packet Z9_ {
+    @tag(  1
+) @tag(00 ) zchar[ 0 ] trueish `// not a comment`
+, Header @lengthOf(
+repeatCount ) // `tick` ""quote"" 'q'
+,charz float`crlf
+line` , match
+lengthOf as	u
     // c
-    lengthOf
-    as
-//
-// `tick` ""quote"" 'q'
-string_// c
-{
-    [ 4294967296 ]: i64_ ""a	b"": o
-,
-}
-, leftPad
-    @calculatedFrom( ""`tick`""	)
-// trailing space 
-// `tick` ""quote"" 'q'
-,@leftPad( '\x00' ) repeat charz /// triple
-msg_type
-,
-repeat i8
-Foo , }packet msg_type {
-//x
-// @lengthOf(
-@leftPad (
-'0'
-)
-u64 repeatCount @calculatedFrom(
-""" ++ [28040; 24687]%N ++ runes_of_ascii """) ,// packet A { u8 x, }
-}
-")).
-Eval vm_compute in ("<<<M48>>>" ++ check (runes_of_ascii "root	packet Logon { @calculatedFrom( """" ) @lengthOf( int ) @tag( 3
-) match _x
-as // a // b
-i64_ { 10:asx
-// `tick` ""quote"" 'q'
-/// triple
-""" ++ [128512]%N ++ runes_of_ascii """ : crc ,[ 0
-,
-007
-] : float  ,// trailing space 
-}
-    , repeat //	t
-uint16
-leftPad  ,
-    }
+    { // `tick` ""quote"" 'q'
+65535  :
+    msg_type
+,""1""
+:
     // " ++ [27880; 37322]%N ++ runes_of_ascii "
-    packet charz
-{  } MetaData
-int {
-//
-// trailing space 
-zchar[ 4294967296 ]matchKey
-,
-asx rootA
-    `doc`
-, Foo string_ `// not a comment`
-,
-    char[]u8x , // `tick` ""quote"" 'q'
-roots
-float , }
-")).
-Eval vm_compute in ("<<<M1334>>>" ++ check (runes_of_ascii "options
-{ 
-LittleEndian
-=  false ;
-StringPrefixLenType 
-= u8
-
-    ; ArrayPrefixLenType=	u64
-; 
-FixedStringPadFromLeft = false ; FixedStringPadChar
-
-    =' ' ;	}
-	packet  Reject
-
-    {repeat	char[
-    4] seqNo , string  Px , 
-}	root
-    packet Trade  {
-    @rightPad
-	(
-
-'0')
-	char[ 
-2
-
-    ]
-	msgKind  ,
-    repeat
-f64 price,InAcct79 { repeat Reject , zchar[  7]
-	OrderId
-	, }
-	,Reject	,}
-")).
-Eval vm_compute in ("<<<M1807>>>" ++ check (runes_of_ascii "packet a1 {
-    @calculatedFrom(""`tick`"")
-    uint32 charz `crlf
-    line`,
+    x
+    ,
+""a\""b"" : packetx , 10:
+msg_type """ ++ [128512]%N ++ runes_of_ascii """ :
+calculatedFrom [
+7 ,0	]
     // c
-    //x
-    a1 `tab	here`,
-}
-
-options {
-    // " ++ [27880; 37322]%N ++ runes_of_ascii "
+    : // " ++ [128512]%N ++ runes_of_ascii " emoji
+u128 , }, string i8i8`{ , }` , } packet// @lengthOf(
+a1{ } root packet roots {
+    @lengthOf(
     // " ++ [128512]%N ++ runes_of_ascii " emoji
-    stringy = 255;
-    metadata = 4294967296
-    pack = string;
-    crc = string;
-}
-
-root packet crc {
-    @tag(42)
-    @calculatedFrom(""abc"")
-    @rightPad('0')
-    u128 u8x,
-    @lengthOf(len)
-    uint16 int,
-}")).
-Eval vm_compute in ("<<<M1745>>>" ++ check (runes_of_ascii "packet float {
-    // c2
-    @rightPad()
-    // c5a
-    // c5b
-    rootA @lengthOf(trueish),
-    // c10
-    stringy @lengthOf(matchKey),// c15a
-    // c15b
-    char[4294967296] pack @lengthOf(uint8x),
-    // c23
-}// c24
-
-root packet trueish {
-    // c28
-    repeat uint64 u128 `line1
-        line2`,
-    // c33
-}
-// c34")).
-Eval vm_compute in ("<<<M1381>>>" ++ check (runes_of_ascii "options
-{
-
-    LittleEndian= 
-true; }  packet
-Logon	{	u8	x 
-,
-
-string
-	user
-,}
-	packet 
-Logout 
-{u16
-    reason  ,
-
-    }packet Empty
-
-    { }
-    root
-
-packet
-Frame
-{
-    u16
-MsgType
-,
-    u8  BodyLen @lengthOf(Body )  ,
-	u8
-flags ,	Logon
-Body ,
-	u32 
-trailer ,
-
-    } ")).
-Eval vm_compute in ("<<<M1504>>>" ++ check (runes_of_ascii "MetaData BodyLength {
-    uint16 leftPad `" ++ [233]%N ++ runes_of_ascii "`,
-    uint8x asx,
-    len lengthOf `// not a comment`,
-    string uint8x `doc`,
-}
-
-options {
-    i8i8 = 0
-    lengthOf = 0123456789;
-}
-
-packet uint8x {
-    @lengthOf(pack)
-    float64 u8x @lengthOf(asx),
-}")).
-Eval vm_compute in ("<<<M1328>>>" ++ check (runes_of_ascii "packet
-
-    Logon
-    {
-
-string
-
-    user
-,} root	packet	Frame{ u8 K 
-,
-    match  K 
-as Body
-	{ 1
-:
-    Logon ,2
-: Logout  ,
-
-}  ,
-	Tail, }
-
-    packet
-Logout
-	{ u16	reason ,
-
-}
-	packet  Tail
-{u32	crc
-    ,  }
-")).
-Eval vm_compute in ("<<<M38>>>" ++ check (runes_of_ascii "options
-{ falsey
-    /// triple
-    = false ; falsey=
-    //
-    int16// `tick` ""quote"" 'q'
-;
-    // `tick` ""quote"" 'q'
-    A =
+    u )
+f64 Logon,@lengthOf(
+_x	) As
+    @calculatedFrom(""\n"" ) , @leftPad
+// packet A { u8 x, }
+// " ++ [27880; 37322]%N ++ runes_of_ascii "
+(  )repeatCount
+@calculatedFrom( ""{,}""
+)
+`tab	here`
     // trailing space 
-    u32  ;
-    trueish	= 1  ;
-    }
+    , @tag(
+    //x
+    42)char[
+1
+    ]T
+    `a\`
+,int64
+_x// packet A { u8 x, }
+, zchar[	4294967296
+    ]
+i64_ @lengthOf(  tag
+    //	t
+    )
+    `
+`
+    , @calculatedFrom(""a\""b""
+    //x
+    ) u8 len`it's` , @leftPad
+(
+) metadata@lengthOf(tag
+    ) `{ , }` ,@leftPad// packet A { u8 x, }
+( ' '
+) MetaDataX  {
+    repeat char[]	rootA
+    ,
+    // c
+    } ,i8 body ,}
 ")).
-Eval vm_compute in ("<<<M1644>>>" ++ check (runes_of_ascii "options {
-    As = true
-    MetaDataX = true
+Eval vm_compute in ("<<<M1839>>>" ++ check (runes_of_ascii "options {
+    string_ = false;
+    falsey = char[4294967296];
 }
 
-packet A {
-    repeat calculatedFrom `say ""hi""`,
+packet zchar {
+    match float as len {
+        [""" ++ [233]%N ++ runes_of_ascii "t" ++ [233]%N ++ runes_of_ascii """] : matchKey,
+        3 : u,
+        [4294967296, ""1""] : zchar,
+    },
 }
 
-MetaData crc {
-    u crc,
-    uint32 body,
-    i16 stringy `u8 x,`,
+MetaData T {
+    // c
+    // a // b
+}
+
+packet packetx {
+    uint16 uint8x @calculatedFrom(""it's""),
+    stringy {
+        i16 crc `{ , }`,
+    },
+    zchar[00] x,
+    zchar {
+        uint64 tag,
+        zchar f32a `say ""hi""`,
+        uint32 A `{ , }`,
+        match _x as falsey {
+            [007, """ ++ [128512]%N ++ runes_of_ascii """] : matchKey,
+            // " ++ [128512]%N ++ runes_of_ascii " emoji
+            [0123456789, 3] : T,
+            // " ++ [128512]%N ++ runes_of_ascii " emoji
+            // `tick` ""quote"" 'q'
+            1 : Foo,
+        },// trailing space 
+    },
+    A,
+    zchar[4294967296] string_ @lengthOf(float),
+    match rootA as As {
+        [
+            ""it's"", 255, 0123456789, """ ++ [233]%N ++ runes_of_ascii "t" ++ [233]%N ++ runes_of_ascii """, ""{,}"",
+            ""abc"", """ ++ [233]%N ++ runes_of_ascii "t" ++ [233]%N ++ runes_of_ascii """
+        ] : int,
+        4294967296 : tag,
+    },
 }")).
-Eval vm_compute in ("<<<M396>>>" ++ check (runes_of_ascii "packet uint8x uint8x
-{ match pack
-    as msg_type	{
-    0123456789 :	float
-}
-,
-} packet //	t
-a1
-    { } options {packetx
-    = '\x00'	; u128= ""a	b""  ; }
-")).
-Eval vm_compute in ("<<<M543>>>" ++ check (runes_of_ascii "packet uint8x
-{ mat'1'ch pack
-    as msg_type	{
-    0123456789 :	float
-}
-,
-} packet //	t
-a1
-    { } options {packetx
-    = '\x00'	; u128= ""a	b""  ; }
-")).
-Eval vm_compute in ("<<<M482>>>" ++ check (runes_of_ascii "packet uint8x
-{ match pack
-    as msg_type	{
-    0123456789 :	float
-}
-,
-} packet //	t
-a1
-    { } { options packetx
-    = '\x00'	; u128= ""a	b""  ; }
-")).
-Eval vm_compute in ("<<<M473>>>" ++ check (runes_of_ascii "packet uint8x
-{ match pack
-    as msg_type	{
-    0123456789 :	float
-}
-,
-} packet //	t
-a1
-    ] } options {packetx
-    = '\x00'	; u128= ""a	b""  ; }
-")).
-Eval vm_compute in ("<<<M530>>>" ++ check (runes_of_ascii "packet uint8x
-{ match pack
-    as msg_type	{
-    0123456789 :	float
-}
-,
-} packet //	t
-a1
-    { } options {packetx
-    = '\x00'	; u128= ""a	b""  ; 
-")).
-Eval vm_compute in ("<<<M440>>>" ++ check (runes_of_ascii "packet uint8x
-{ match pack
-    as msg_type	{
-    0123456789 :	
-}
-,
-} packet //	t
-a1
-    { } options {packetx
-    = '\x00'	; u128= ""a	b""  ; }
-")).
-Eval vm_compute in ("<<<M490>>>" ++ check (runes_of_ascii "packet uint8x
-{ match pack
-    as msg_type	{
-    0123456789 :	float
-}
-,
-} packet //	t
-a1
-    { } options {
-    = '\x00'	; u128= ""a	b""  ; }
-")).
-Eval vm_compute in ("<<<M430>>>" ++ check (runes_of_ascii "packet uint8x
-{ match pack
-    as msg_type	{
-     :	float
-}
-,
-} packet //	t
-a1
-    { } options {packetx
-    = '\x00'	; u128= ""a	b""  ; }
-")).
-Eval vm_compute in ("<<<M1298>>>" ++ check (runes_of_ascii "packet
-A
-{ 
-u8 a,
-}
-
-packet
-    B {
-
-u16  b
-,} 
-root	packet	P
-{ u8
-K
-
-,
-
-    match	K
-
-as M	{1
-    :
-A,
-
-1	: 
-B 
-, }
-,
-
+Eval vm_compute in ("<<<M298>>>" ++ check (runes_of_ascii "
+options  { } options
+    {  uint8x =
+// @lengthOf(
+// " ++ [27880; 37322]%N ++ runes_of_ascii "
+42 uint8x = /// triple
+""abc"" ; //x
+_x='0'
     }
+    packet u8x
+    { zchar[ 1 ] As
+`crlf
+line`, match metadata as float  { ""packet"" ://
+trueish , } , repeat
+rootA
+, repeat metadata repeatCount// trailing space 
+, @rightPad( // `tick` ""quote"" 'q'
+'0') i64 body `// not a comment`
+, @tag( 1) string string_
+    `line1
+line2` ,
+uint8 u8x`" ++ [28040; 24687; 31867; 22411]%N ++ runes_of_ascii "` ,
+packetx u128,	u tag , repeat Logon zchar
+`` ,  }packet zchar
+{
+    }	packet	MetaDataX { @lengthOf(
+Packet ) repeatCount  int
+`doc` , @tag(
+7 ) packetx @calculatedFrom( ""a\""b""// c
+) , match msg_type as x { ""\n"" : calculatedFrom }, //x
+@leftPad (// packet A { u8 x, }
+'\x00')@lengthOf( MetaDataX // c
+)
+    // a // b
+    char[007
+] a1`tab	here`, As
+    @calculatedFrom( ""`tick`"") `// not a comment`,} 	 ")).
+Eval vm_compute in ("<<<M312>>>" ++ check (runes_of_ascii "packet // packet A { u8 x, }
+tag
+    { @calculatedFrom(""x y"" ) lengthOf{ options1
+    `
+`,} , @tag( 7 )
+int {
+//x
+// " ++ [27880; 37322]%N ++ runes_of_ascii "
+char[ 007  ] // `tick` ""quote"" 'q'
+calculatedFrom @lengthOf(
+metadata
+)  , tag @lengthOf( falsey
+) ,	f32
+    // " ++ [128512]%N ++ runes_of_ascii " emoji
+    calculatedFrom
+// `tick` ""quote"" 'q'
+//
+`{ , }` , i8i8
+    {string
+    i64_ @lengthOf( asx )	`it's` , u @calculatedFrom(  ""\n"" ) ,
+    } ,	}
+    ,
+    @calculatedFrom(""abc"" //
+)  @leftPad ( ' '
+    )  uint64 calculatedFrom
+,// " ++ [27880; 37322]%N ++ runes_of_ascii "
+} packet o { Header ,
+    @lengthOf(	i8i8
+) float32
+    Pad // c
+,char[ 42 ]
+leftPad
+    @calculatedFrom(	"""" // " ++ [128512]%N ++ runes_of_ascii " emoji
+)
+    , @tag( 255 )
+body
+    u , } packet lengthOf{
+// packet A { u8 x, }
+// c
+@tag(
+    255 //x
+) char[ 0123456789 ] o
+`
+` , }
 
 ")).
-Eval vm_compute in ("<<<M1585>>>" ++ check (runes_of_ascii "options {
+Eval vm_compute in ("<<<M6>>>" ++ check (runes_of_ascii "// `tick` ""quote"" 'q'
+packet As
+{ @rightPad ( '0' ) stringy
+@lengthOf( calculatedFrom),	@tag( 10	) string uint8x `
+` ,	match body // packet A { u8 x, }
+as uint8x {
+    ""it's"" :  rootA , [ 00 ] : leftPad
+    ,
+42 :	MetaDataX , ""a	b"" :  calculatedFrom
+    255
+:trueish	} , repeat	i64 Logon `tab	here` , } options {crc
+= '\x00' ;}
+packet x { @calculatedFrom(
+""a\\""
+    )
+@tag( 42
+) @leftPad	( '0' // c
+) match o	as /// triple
+x_y_z {// packet A { u8 x, }
+[ """ ++ [128512]%N ++ runes_of_ascii """// trailing space 
+, ""x y"" , // c
+0123456789 ,""CRC32"" ,
+//	t
+// packet A { u8 x, }
+""it's""
+, 007
+, 3, 007 // @lengthOf(
+] :	Packet // c
+[	255, ""x y""
+    ] :x_y_z
+    ,
+} , }
+// trailing space 
+")).
+Eval vm_compute in ("<<<M1688>>>" ++ check (runes_of_ascii "//x
+packet x {
+    @lengthOf(string_)
+    // `tick` ""quote"" 'q'
+    // trailing space 
+    msg_type {
+        int @lengthOf(chars) `" ++ [28040; 24687; 31867; 22411]%N ++ runes_of_ascii "`,
+        int `a\`,
+    },
+    uint32 chars @calculatedFrom(""`tick`"") `
+    `,
+    @lengthOf(packetx)
+    match metadata as x_y_z {
+        65535 : x,
+        007 : u,
+        [7, ""// no comment"", """ ++ [28040; 24687]%N ++ runes_of_ascii """] : x,
+        ""a\\"" : MetaDataX,
+        0123456789 : lengthOf,
+        10 : float,
+    },
+    u16 Logon @calculatedFrom(""x y"") `tab	here`,
+    @lengthOf(Foo)
+    zchar,
 }
 
-MetaData u8x {
-    uint8x body `crlf
-    line`,
-    calculatedFrom body,
+packet tag {
 }
 
-options {
+root packet x_y_z {
 }
 
-root packet options1 {
+MetaData int {
+    string A `" ++ [233]%N ++ runes_of_ascii "`,
 }")).
-Eval vm_compute in ("<<<M1837>>>" ++ check (runes_of_ascii "packet B {
+Eval vm_compute in ("<<<M1824>>>" ++ check (runes_of_ascii "  options {
+	rootA =4294967296	;falsey = ""a\""b""  ;
+
+    As
+
+    =
+    // @lengthOf(
+	/// triple
+""""  ;
+    packetx
+=""packet""
+
+    i8i8=
+true	;} 	 // `tick` ""quote"" 'q'
+	packet
+
+x {
+repeat
+zchar
+rootA ,
+char[]
+    pack
+	`// not a comment`
+
+, @tag(
+00	)
+@tag(
+
+0123456789  ) u	@calculatedFrom( ""packet"" )
+`u8 x,`,  Header
+{ zchar[
+
+00 ]	body,a1 @calculatedFrom(// " ++ [128512]%N ++ runes_of_ascii " emoji
+""it's"")
+    `" ++ [233]%N ++ runes_of_ascii "`	,
+
+}
+    , }  // " ++ [27880; 37322]%N ++ runes_of_ascii "
+		MetaData A	// a // b
+  	{zchar/// triple
+matchKey
+`` ,
+
+    int64 metadata ,
+	char[] 
+_x  //	t
+    , 
+}
+")).
+Eval vm_compute in ("<<<M1872>>>" ++ check (runes_of_ascii "// top
+packet Logon {
+    // c2a
+    // c2b
+    string user,// c5a
+    // c5b
+}// c6a
+
+// c6b
+root packet Frame {
+    // c10
+    u8 K,
+    // c13
+    match K as Body {
+        // c18
+        1 : Logon,
+        // c22a
+        // c22b
+        2 : Logout,
+        // c26
+    },// c28a
+    // c28b
+    Tail,// c30a
+    // c30b
+}// c31a
+
+// c31b
+packet Logout {
+    // c34a
+    // c34b
+    u16 reason,
+}
+
+// c38
+packet Tail {
+    // c41
+    u32 crc,// c44
+}// c45a
+// c45b")).
+Eval vm_compute in ("<<<M14>>>" ++ check (runes_of_ascii "MetaData u128
+    {// a // b
+string zchar //x
+`two words` ,u16 packetx
+`a\` , char[ 1 ] Logon	, len crc, char[
+7]i8i8,char[]calculatedFrom,
+} // @lengthOf(
+MetaData u
+    { u// " ++ [128512]%N ++ runes_of_ascii " emoji
+u128
+, //	t
+}root packet metadata { }options	{ matchKey =
+    255
+;
+x_y_z
+= 007 crc=int16
+; zchar =// c
+char[42 ]
+; int
+= true ;
+} options  {
+Header = """ ++ [128512]%N ++ runes_of_ascii """
+;
+len
+    = ' ' ; matchKey= """" ;MetaDataX =' '
+; o
+    = '\x00' ; }
+/// triple
+")).
+Eval vm_compute in ("<<<M1574>>>" ++ check (runes_of_ascii "// packet A { u8 x, }
+MetaData roots {
+    char[00] lengthOf ``,
+    As stringy,
+    x calculatedFrom,
+}
+
+packet i8i8 {
+    crc `crlf
+        line`,
+    @rightPad()
+    zchar[42] falsey,
+    /// triple
+    @tag(42)
+    u32 leftPad,
+    @tag(42)
+    a1 @lengthOf(Z9_),
+    match leftPad as crc {
+        [""a\""b"", 1, 255] : trueish,
+        3 : float,
+        0 : lengthOf,
+    },
+}")).
+Eval vm_compute in ("<<<M299>>>" ++ check (runes_of_ascii "// packet A { u8 x, }
+MetaData roots{ char[ 00]lengthOf
+``  , As stringy, x	calculatedFrom ,} packet i8i8	{
+crc `crlf
+line` , @rightPad// a // b
+( )zchar[ 42] falsey // trailing space 
+,
+    /// triple
+    @tag( 42 ) u32	leftPad  , @tag( 42 ) a1@lengthOf( Z9_ ) , match leftPad as crc{ [""a\""b"" , 1
+, 255
+]:	trueish ,3
+: float ,
+0 :lengthOf
+    ,
+} ,}")).
+Eval vm_compute in ("<<<M1925>>>" ++ check (runes_of_ascii "root packet leftPad {
+    T @lengthOf(A) `" ++ [233]%N ++ runes_of_ascii "`,
+    Header @lengthOf(As),
+    string calculatedFrom `{ , }`,
+    @tag(1)
+    // trailing space 
+    u16 x_y_z,
+    @tag(4294967296)
+    x_y_z metadata,
+    asx {
+        asx `it's`,
+    },
+    char[65535] As @lengthOf(Logon) `a\`,
+    @lengthOf(Z9_)
+    string BodyLength,
+}")).
+Eval vm_compute in ("<<<M1308>>>" ++ check (runes_of_ascii "packet A {
     u8 a,
 }
+packet B {
+    u16 b,
+}
+packet C {
+    u32 c,
+}
+root packet M {
+    u16 Kc, u16 Kb, u16 Ka,
+    match Kc as X {
+        9 : A,
+        10 : B,
+    },
+    match Kb as Y {
+        2 : C,
+        1 : A,
+    },
+    match Ka as Z {
+        1 : B,
+    },
+    A, B, C,
+}
+")).
+Eval vm_compute in ("<<<M1382>>>" ++ check (runes_of_ascii "options {
+    LittleEndian = true;
+}
+packet Logon {
+    u8 x,
+    string user,
+}
+packet Logout {
+    u16 reason,
+}
+packet Empty {
+}
+root packet Frame {
+    u16 MsgType,
+    u8 BodyLen @lengthOf(Body),
+    u8 flags,
+    Logon Body,
+    u32 trailer,
+}
+")).
+Eval vm_compute in ("<<<M364>>>" ++ check (runes_of_ascii "packet  _x
+{ repeat char[] matchKey// " ++ [128512]%N ++ runes_of_ascii " emoji
+, @leftPad( ) x_y_z/// triple
+T , Pad
+{ zchar[ 1] rootA `tab	here`
+,},Foo
+    @calculatedFrom(
+    """"
+    // trailing space 
+    ),
+}	packet MetaDataX {
+float64 body, }
+")).
+Eval vm_compute in ("<<<M1403>>>" ++ check (runes_of_ascii "packet A {
+    Inner {
+        match k as n {
+            [
+                1, 22, 007, 4, 5,
+                66, 7, 8, 9, 10,
+                11, 12
+            ] : B,
+        },
+    },
+}")).
+Eval vm_compute in ("<<<M1301>>>" ++ check (runes_of_ascii "
 
+  packet A
+{u8 a
+
+    ,
+	} packet 
+B { u16
+
+    b , }root packet P
+
+    {u8 K
+    , match
+    K as M
+	{ [ 1
+,
+	2 ]: 
+A
+
+    ,
+
+3 :B
+    ,	7
+    : A,
+	}
+	,  }
+
+")).
+Eval vm_compute in ("<<<M1907>>>" ++ check (runes_of_ascii "
+
+  MetaData
+
+    leftPad {
+    chars
+    MetaDataX 
+,
+}  packet repeatCount
+
+{	char[ 
+255
+	]  // c
+  uint8x 
+`" ++ [233]%N ++ runes_of_ascii "` , } 
+MetaData  pack
+	{ 
+As
+Foo
+
+    , }")).
+Eval vm_compute in ("<<<M1673>>>" ++ check (runes_of_ascii "MetaData chars {
+}
+
+options {
+    As = true;
+    As = false;
+    stringy = true
+}
+
+packet repeatCount {
+    string float @lengthOf(matchKey) `say ""hi""`,
+}")).
+Eval vm_compute in ("<<<M672>>>" ++ check (runes_of_ascii "// @lengthOf(
+packet i8i8 { u128 o , }
+options { MetaDataX = true;
+    BodyLength =""packet"" x_y_z= 007
+crc //x
+= ""abc"" ;
+    msg_type =
+@leftpad i16 }")).
+Eval vm_compute in ("<<<M457>>>" ++ check (runes_of_ascii "packet uint8x
+{ match pack
+    as msg_type	{
+    0123456789 :	float
+}
+,
+packet } //	t
+a1
+    { } options {packetx
+    = '\x00'	; u128= ""a	b""  ; }
+")).
+Eval vm_compute in ("<<<M515>>>" ++ check (runes_of_ascii "packet uint8x
+{ match pack
+    as msg_type	{
+    0123456789 :	float
+}
+,
+} packet //	t
+a1
+    { } options {packetx
+    = '\x00'	; u128 ""a	b""  ; }
+")).
+Eval vm_compute in ("<<<M1769>>>" ++ check (runes_of_ascii "MetaData
+
+    leftPad
+    { 
+chars
+MetaDataX// c
+
+	,
+} packet repeatCount{
+char[ 255
+
+]
+	uint8x
+	`" ++ [233]%N ++ runes_of_ascii "` 
+,
+    }
+	MetaData 
+pack	{As
+	Foo
+,
+}
+
+")).
+Eval vm_compute in ("<<<M423>>>" ++ check (runes_of_ascii "packet uint8x
+{ match pack
+    as ,	{
+    0123456789 :	float
+}
+,
+} packet //	t
+a1
+    { } options {packetx
+    = '\x00'	; u128= ""a	b""  ; }
+")).
+Eval vm_compute in ("<<<M71>>>" ++ check (runes_of_ascii "root packet MetaDataX
+{repeat u8x len `" ++ [28040; 24687; 31867; 22411]%N ++ runes_of_ascii "`,
+As { u8x
+, } , int f32a
+`" ++ [233]%N ++ runes_of_ascii "`, @lengthOf( float ) Z9_
+// @lengthOf(
+// trailing space 
+`a\` , }")).
+Eval vm_compute in ("<<<M1728>>>" ++ check (runes_of_ascii "packet A {
+    B b `a
+            b
+          c`,
+    B `a
+            b
+          c`,
+    repeat B bs `a
+            b
+          c`,
+}")).
+Eval vm_compute in ("<<<M509>>>" ++ check (runes_of_ascii "packet uint8x
+{ match pack
+    as msg_type	{
+    0123456789 :	float
+}
+,
+} packet //	t
+a1
+    { } options {packetx
+    = '\x00'")).
+Eval vm_compute in ("<<<M1258>>>" ++ check (runes_of_ascii "packet B {
+    u8 a,
+}
 root packet P {
     u8 K,
     u8 L @lengthOf(Body),
     match K as Body {
         1 : B,
     },
-}")).
-Eval vm_compute in ("<<<M1164>>>" ++ check (runes_of_ascii "MetaData leftPad { chars MetaDataX , } packet repeatCount { char[
-// c
-255 ] uint8x `" ++ [233]%N ++ runes_of_ascii "` , } MetaData pack { As Foo , }")).
-Eval vm_compute in ("<<<M906>>>" ++ check (runes_of_ascii "packet A {
-  match k as n {
-    [""a"", ""bb"", ""c c"", ""d"", ""e"", ""f"", ""g"", ""h"", ""i"", ""j"", ""k"", ""l""] : B,
-    2 : C
-  },
-}")).
-Eval vm_compute in ("<<<M494>>>" ++ check (runes_of_ascii "packet uint8x
-{ match pack
-    as msg_type	{
-    0123456789 :	float
 }
-,
-} packet //	t
-a1
-    { } options {")).
-Eval vm_compute in ("<<<M1285>>>" ++ check (runes_of_ascii "// top
-root
-    // c0
-packet // c1a
-  // c1b
-P
-    // c2
-{ // c3
-string s // c5a
-  // c5b
-,
-    // c6
-} ")).
-Eval vm_compute in ("<<<M373>>>" ++ check (runes_of_ascii "  MetaData leftPad { /// triple
-char[] body,  As options1
-//
-/// triple
-,
-o
-    //x
-    i64_
-, }
 ")).
-Eval vm_compute in ("<<<M871>>>" ++ check (runes_of_ascii "packet A {
-  match k as n {
-    [""a"", 22, ""c c"", 4, ""e"", 66, ""g"", 8, ""i""] : B,
-    2 : C
-  },
-}")).
-Eval vm_compute in ("<<<M226>>>" ++ check (runes_of_ascii "// a // b
-packet Pad {
-    char[] // packet A { u8 x, }
-Z9_ @lengthOf( Pad
-) `{ , }` , } 	 ")).
-Eval vm_compute in ("<<<M1692>>>" ++ check (runes_of_ascii "packet A {
-    B b `a
-    
-    b`,
-    B `a
-    
-    b`,
-    repeat B bs `a
-    
-    b`,
-}")).
-Eval vm_compute in ("<<<M850>>>" ++ check (runes_of_ascii "packet A {
-  match k as n {
-    [""a"", ""bb"", 007, ""d"", ""e"", 66, ""g""] : B
-    2 : C
-  },
-}")).
-Eval vm_compute in ("<<<M1426>>>" ++ check (runes_of_ascii "packet A {
-    match k as n {
-        [1, 22, 007, 4, 5] : B,
-        2 : C,
-    },
-}")).
-Eval vm_compute in ("<<<M848>>>" ++ check (runes_of_ascii "packet A {
-  match k as n {
-    [1, 22, ""c c"", 4, 5, ""f"", 7] : B
-    2 : C
-  },
-}")).
-Eval vm_compute in ("<<<M820>>>" ++ check (runes_of_ascii "packet A {
-  match k as n {
-    [""a"", 22, ""c c"", 4, ""e""] : B
-    2 : C
-  },
-}")).
-Eval vm_compute in ("<<<M789>>>" ++ check (runes_of_ascii "packet A {
-  match k as n {
-    [""a"", ""bb"", ""c c""] : B,
-    2 : C
-  },
-}")).
-Eval vm_compute in ("<<<M1835>>>" ++ check (runes_of_ascii "MetaData
-	M
-	{u8
-    x `a
-    b
-  c`
+Eval vm_compute in ("<<<M1159>>>" ++ check (runes_of_ascii "MetaData leftPad { chars MetaDataX , } packet repeatCount // c
+{ char[ 255 ] uint8x `" ++ [233]%N ++ runes_of_ascii "` , } MetaData pack { As Foo , }")).
+Eval vm_compute in ("<<<M102>>>" ++ check (runes_of_ascii "packet
+    // " ++ [128512]%N ++ runes_of_ascii " emoji
+    body {match Logon  as _x
+    {
+4294967296
+// a // b
+//x
+:
+_x , """ ++ [28040; 24687]%N ++ runes_of_ascii """
+    : u128
+    ,} , }
+")).
+Eval vm_compute in ("<<<M1763>>>" ++ check (runes_of_ascii "packet
+    A {
+	match
+
+k
+as
+	n {
+
+    [
+	""a"" 
+, ""bb"",	""c c""	,  ""d""
+
+,
+""e"" ,""f""
+
+]  :B
+
 , 
-T
-
-    t
-
-`a
-    b
-  c`,} ")).
-Eval vm_compute in ("<<<M1127>>>" ++ check (runes_of_ascii "// top
-MetaData
-    // c0
-u
-    // c1
-{ // c2a
-  // c2b
-} // c3
-")).
-Eval vm_compute in ("<<<M812>>>" ++ check (runes_of_ascii "packet A { Inner { match k as n { [1,22,007,4] : B, }, }, }")).
-Eval vm_compute in ("<<<M1802>>>" ++ check (runes_of_ascii "// c
-packet body {
-    i32 f32a `{ , }`,
+2 : C
+    }  ,
+} ")).
+Eval vm_compute in ("<<<M931>>>" ++ check (runes_of_ascii "packet A {
+    u16 len @lengthOf(body) `
+`,
+    u32 crc @calculatedFrom(""CRC32"") `
+`,
+    string body,
+}")).
+Eval vm_compute in ("<<<M884>>>" ++ check (runes_of_ascii "packet A {
+  match k as n {
+    [""a"", 22, ""c c"", 4, ""e"", 66, ""g"", 8, ""i"", 10] : B,
+    2 : C
+  },
+}")).
+Eval vm_compute in ("<<<M1892>>>" ++ check (runes_of_ascii "packet B {
+    u8 a,
+    string s,
 }
 
-options {
+root packet P {
+    u16 L @lengthOf(B),
+    B,
+    u8 t,
 }")).
-Eval vm_compute in ("<<<M1209>>>" ++ check (runes_of_ascii "packet body { i32 f32a `{ , }` // c
-, } options { }")).
-Eval vm_compute in ("<<<M1257>>>" ++ check (runes_of_ascii "
-root	packet
+Eval vm_compute in ("<<<M841>>>" ++ check (runes_of_ascii "packet A {
+  match k as n {
+    [""a"", ""bb"", ""c c"", ""d"", ""e"", ""f"", ""g""] : B,
+    2 : C
+  },
+}")).
+Eval vm_compute in ("<<<M632>>>" ++ check (runes_of_ascii "
+packet
+    asx {match u128 a|s lengthOf
+{
+//	t
+// `tick` ""quote"" 'q'
+255 : x ,
+    } ,	}")).
+Eval vm_compute in ("<<<M1709>>>" ++ check (runes_of_ascii "
+packet
 
-P	{
-	hdr {u8  a,
-}  ,u8 
-x , 
+msg_type
+
+{
+
+    repeat 	 // " ++ [27880; 37322]%N ++ runes_of_ascii "
+  zchar[
+007]
+
+    Logon
+
+`two words` ,
+
 }
 ")).
-Eval vm_compute in ("<<<M951>>>" ++ check (runes_of_ascii "MetaData M {
-    u8 x `x
-`,
-    T t `x
-`,
+Eval vm_compute in ("<<<M1289>>>" ++ check (runes_of_ascii "
+root
+
+    packet
+
+P
+{repeat	string
+    ss
+    ,  repeat
+    u16
+ns
+    ,
+
+    }
+")).
+Eval vm_compute in ("<<<M832>>>" ++ check (runes_of_ascii "packet A {
+  match k as n {
+    [""a"", 22, ""c c"", 4, ""e"", 66] : B,
+    2 : C
+  },
 }")).
-Eval vm_compute in ("<<<M1067>>>" ++ check (runes_of_ascii "packet A {    u8 x, // c    u8 y,}")).
-Eval vm_compute in ("<<<M922>>>" ++ check (runes_of_ascii "root packet A {
+Eval vm_compute in ("<<<M1649>>>" ++ check (runes_of_ascii "
+packet 
+    // c
+	body {
+    i32 f32a 
+`{ , }`
+,  }
+    options
+
+    {
+}
+")).
+Eval vm_compute in ("<<<M345>>>" ++ check (runes_of_ascii "
+options
+{ } // " ++ [128512]%N ++ runes_of_ascii " emoji
+options { float // `tick` ""quote"" 'q'
+=	65535 }
+")).
+Eval vm_compute in ("<<<M793>>>" ++ check (runes_of_ascii "packet A {
+  match k as n {
+    [""a"", 22, ""c c""] : B,
+    2 : C
+  },
+}")).
+Eval vm_compute in ("<<<M653>>>" ++ check (runes_of_ascii "// @lengthOf(
+packet i8i8 { u128 o , }
+options { MetaDataX = true")).
+Eval vm_compute in ("<<<M825>>>" ++ check (runes_of_ascii "packet A { Inner { match k as n { [1,22,007,4,5] : B, }, }, }")).
+Eval vm_compute in ("<<<M1798>>>" ++ check (runes_of_ascii "root packet A {
     u8 x `a
+            b
+          c`,
+}")).
+Eval vm_compute in ("<<<M1199>>>" ++ check (runes_of_ascii "packet // c
+body { i32 f32a `{ , }` , } options { }")).
+Eval vm_compute in ("<<<M1594>>>" ++ check (runes_of_ascii "MetaData M {
+    u8 x `
+    `,
+    T t `
+    `,
+}")).
+Eval vm_compute in ("<<<M1686>>>" ++ check (runes_of_ascii "packet
+	A{
+
+u8 x
+,
+	    // c
+
+u8
+y
+,
+}
+")).
+Eval vm_compute in ("<<<M1490>>>" ++ check (runes_of_ascii "MetaData M {
+}// c
+
+MetaData N {
+}// d")).
+Eval vm_compute in ("<<<M424>>>" ++ check (runes_of_ascii "packet uint8x
+{ match pack
+    as")).
+Eval vm_compute in ("<<<M959>>>" ++ check (runes_of_ascii "packet A {
+    u8 x `tab
+	x`,
+}")).
+Eval vm_compute in ("<<<M941>>>" ++ check (runes_of_ascii "packet A {
+    u8 x `a
+
 b`,
 }")).
-Eval vm_compute in ("<<<M586>>>" ++ check (runes_of_ascii "
-packet
-    asx {match u128 as")).
-Eval vm_compute in ("<<<M381>>>" ++ check (runes_of_ascii "options{
-int
-=char[] ; }
-//
-")).
-Eval vm_compute in ("<<<M326>>>" ++ check (runes_of_ascii "  options{// a // b
-}
+Eval vm_compute in ("<<<M1437>>>" ++ check (runes_of_ascii "MetaData tag {
+    // c
+}")).
+Eval vm_compute in ("<<<M63>>>" ++ check (runes_of_ascii "packet i64_
+    { }
 
 ")).
-Eval vm_compute in ("<<<M1537>>>" ++ check (runes_of_ascii "  packet
-A {}// c" ++ [5760]%N ++ runes_of_ascii "
- 
-")).
-Eval vm_compute in ("<<<M103>>>" ++ check (runes_of_ascii "packet packetx	{ }")).
-Eval vm_compute in ("<<<M1047>>>" ++ check (runes_of_ascii "// c" ++ [8203]%N ++ runes_of_ascii "
-packet A {
-}")).
-Eval vm_compute in ("<<<M1054>>>" ++ check (runes_of_ascii "packet A {
-}// c" ++ [6158]%N)).
-Eval vm_compute in ("<<<M712>>>" ++ check (runes_of_ascii "// @lengthOf(
-")).
-Eval vm_compute in ("<<<M252>>>" ++ check (runes_of_ascii " // c")).
-Eval vm_compute in ("<<<M728>>>" ++ check (runes_of_ascii "		")).
+Eval vm_compute in ("<<<M1130>>>" ++ check (runes_of_ascii "MetaData // c
+u { }")).
+Eval vm_compute in ("<<<M1021>>>" ++ check (runes_of_ascii "packet A {
+}
+// c" ++ [8239]%N)).
+Eval vm_compute in ("<<<M999>>>" ++ check (runes_of_ascii "packet A {
+}// c" ++ [8192]%N)).
+Eval vm_compute in ("<<<M762>>>" ++ check (runes_of_ascii "w|lL|]kVFeknSP9")).
+Eval vm_compute in ("<<<M84>>>" ++ check (runes_of_ascii " // " ++ [27880; 37322]%N)).
+Eval vm_compute in ("<<<M736>>>" ++ check (runes_of_ascii " " ++ [12]%N ++ runes_of_ascii " ")).
